@@ -79,7 +79,7 @@ func nextStringMapArguments(cmd string, args Arguments) (map[string]string, erro
 	for err == nil {
 		val, err = args.NextString()
 		if err != nil {
-			newMissingArgumentError(cmd, key, err)
+			return nil, newMissingArgumentError(cmd, key, err)
 		}
 		dir[key] = val
 		key, err = args.NextString()
